@@ -35,22 +35,18 @@ PROP = dict(
         "internal messages are arbitrary cells for the model; their own TL-B marshalling (wallet.Message.ToInternal) is "
         "exercised by the harness but belongs to C03/C04",
     ],
-    partial=[
-        "highload: fits_in_cell_highload states the outer layout given the dictionary cell; that the dictionary of n<=254 "
-        "entries always builds and decodes back (decode_build for HighLoadV2R2) is checked by correspondence on every run "
-        "(0..254 messages), not proved in Lean - it is the dictionary round-trip of C05",
-    ],
-    level_text="Theorems for all inputs about the Lean model: for v3/v4/v5r1/v5beta the builders return written-out layouts "
-               "that fit a cell; the digest signed and the digest verified are the representation hash of exactly the cell "
+    partial=[],
+    level_text="Theorems for all inputs about the Lean model: for all seven sending versions the builders return written-out layouts "
+               "that fit a cell (highload: the dictionary with keys 0..n-1 always builds, n <= 254); the digest signed and the digest verified are the representation hash of exactly the cell "
                "holding ids, expiry, seqno, [op] and the messages; the wallet's own key verifies (signature correctness "
                "assumed); decoding the built external message returns the same ids, seqno, expiry and messages with modes in "
-               "order; representations of ordinary cells are injective in bits and ref hashes, so any change of the signed "
+               "order (highload: a full encode/decode round trip of the Patricia-tree dictionary is proved for key intervals); representations of ordinary cells are injective in bits and ref hashes, so any change of the signed "
                "body changes the digest unless SHA-256 collides; over-limit sends are refused before anything is sent. Two "
                "defects found by the check (empty highload payload undecodable, v5 beta unverifiable) are repaired in the "
                "code; their negations on the old model are theorems. The model is tied to the Go code by bit-exact "
                "correspondence on every run, including all 7 versions with up to 255 messages and real Ed25519.",
     level_note="trusted: Lean kernel, harness, validated SHA-256; assumptions: Ed25519 unforgeability/correctness, SHA-256 "
-               "collision-freedom; highload dictionary round-trip by correspondence only",
+               "collision-freedom",
     technique="functional model with explicit builder/reader monads, layout lemmas, append/bit-list injectivity, "
               "differential correspondence with real crypto, direct property oracles",
 )
